@@ -3,7 +3,7 @@ From Coq Require Import NArith List Bool String.
 From BM Require Import Base.Outcome Base.Prims Base.Own Base.Layout Model.Alloc Proofs.AllocProofs.
 Import ListNotations.
 Open Scope N_scope.
-From BM Require Import Model.RcHist.
+From BM Require Import Model.RcHist Proofs.AllocGen.
 
 Theorem C10_iff : forall k A B c, wf_cont k A c -> ((exists c', try_cast_cont k A B c = Ok c') <-> cast_ok k A B c).
 Proof. exact cast_iff. Qed.
@@ -18,6 +18,22 @@ Proof. exact cast_err. Qed.
 Theorem C10_counts_untouched : forall s, rc_step s HCast = s.
 Proof. exact rc_cast_noop. Qed.
 
+(* the translated ladders of src/allocation.rs (Gen/Alloc.v, regenerated every run) ARE the modelled
+   ladders: same decision, same error, same container *)
+Theorem C10_generated_is_model : forall k ENV A B c, gen_pre k A c ->
+  gen_try k ENV A B c = Ret (try_cast_cont k A B c).
+Proof. exact gen_try_refines. Qed.
+
+Theorem C10_generated_iff : forall k ENV A B c, wf_cont k A c -> gen_pre k A c ->
+  ((exists c', gen_try k ENV A B c = Ret (Ok c')) <-> cast_ok k A B c).
+Proof.
+  intros k ENV A B c Hwf Hpre. rewrite (gen_try_refines k ENV A B c Hpre).
+  rewrite <- (cast_iff k A B c Hwf). split; intros [c' H]; exists c'; [inversion H; reflexivity | rewrite H; reflexivity].
+Qed.
+
+Example C10_gen_pre_nonvacuous : gen_pre KVec (mkTy 4 4) (mkCont 4096 3 6) /\ gen_pre KVec (mkTy 0 1) (mkCont 1 5 18446744073709551615).
+Proof. split; vm_compute; reflexivity. Qed.
+
 Example C10_nonvacuous :
   cast_ok KBoxSlice (mkTy 6 2) (mkTy 4 2) (mkCont 64 2 2) /\ ~ cast_ok KBoxSlice (mkTy 6 2) (mkTy 4 2) (mkCont 64 3 3).
 Proof. unfold cast_ok, convertible; cbn. split; [split; reflexivity | intros [_ H]; discriminate H]. Qed.
@@ -26,3 +42,5 @@ Print Assumptions C10_iff.
 Print Assumptions C10_char.
 Print Assumptions C10_err_true.
 Print Assumptions C10_counts_untouched.
+Print Assumptions C10_generated_is_model.
+Print Assumptions C10_generated_iff.
